@@ -1299,6 +1299,181 @@ def check_noisy(ck, scratch, n):
 
 
 # ----------------------------------------------------------------------------
+# bounded noise: the deterministic form of the noise clauses (Props/C05.v, C05_bounded_noise_*), corrections off.
+# Every file is profile + its own constant, up to eps (uniform on the 1/1024 grid) in every bin; X / Y at their
+# ideal levels up to eps.  Then, with R = max(2 eps, |flat - ideal|) per bin (2 eps when the profile is centred at
+# the flat level there):  |reference log2 - ideal| <= R  and  spread^2 <= 62 R^2  (= 248 eps^2 for R = 2 eps).
+
+NOISE_EPS = [Fr(1, 64), Fr(1, 16), Fr(1, 8)]
+
+
+def bounded_truth(meta):
+    """what a generated cohort is noise around: sexes, and per bin the profile relative to its block's centre"""
+    rel = [[k[0], k[1], k[2], k[3], float(a - meta['tcentre'])] for k, a in meta['tprofile'].items()]
+    if 'aprofile' in meta:
+        rel += [[k[0], k[1], k[2], k[3], float(a - meta['acentre'])] for k, a in meta['aprofile'].items()]
+    return {'sex': {k: bool(v) for k, v in meta['sex'].items()}, 'rel': rel}
+
+
+def bounded_blocks(case):
+    out = []
+    for files, skip_low in ((case['targets'], True), (case.get('antis') or [], False)):
+        if files:
+            first = sort_rows(sorted(files, key=lambda f: f['id'])[0]['rows'])
+            if first:
+                out.append((files, first, skip_low))
+    return out
+
+
+def bounded_kind(first, build, r):
+    """'auto' (a bin the centre is taken over), 'x', 'y' or None (PAR-Y with a build, other contigs)"""
+    if is_auto(r[0]) or (build is not None and r[0] == labels(first)[0] and in_par(build, 'X', r)):
+        return 'auto'
+    if x_mask(first, build, r):
+        return 'x'
+    if y_mask(first, build, r):
+        return 'y'
+    return None
+
+
+def bounded_precondition(case, eps, truth):
+    """the hypotheses of the theorems on the INPUT: per file one constant d with every constrained bin within eps of
+    its ideal raw level (autosomes: profile + d; X: profile + d - [male]; Y of males: profile + d - 1)"""
+    rel = {(r[0], int(r[1]), int(r[2]), r[3]): Fr(float(r[4])) for r in truth['rel']}
+    for files, first, skip_low in bounded_blocks(case):
+        if not any(is_auto(r[0]) for r in first):
+            continue
+        for f in files:
+            female = bool(truth['sex'][f['id']])
+            lo, hi = None, None
+            for r in f['rows']:
+                if skip_low and (Fr(r[4]) < -15 or (f.get('with_depth', True) and r[5] == 0)):
+                    return 'a null-coverage bin'        # no_low: the centring would drop it
+                kind = bounded_kind(first, case['build'], r)
+                if kind is None or (kind == 'y' and female):
+                    continue
+                ideal = rel[tuple(r[:4])] - (1 if (kind == 'y' or (kind == 'x' and not female)) else 0)
+                d = Fr(r[4]) - ideal
+                lo = d - eps if lo is None else max(lo, d - eps)
+                hi = d + eps if hi is None else min(hi, d + eps)
+            if lo is not None and lo > hi:
+                return 'file %s is not within eps of profile + constant' % f['id']
+    return None
+
+
+def check_bounded_case(ck, scratch, tag, case, eps, truth, cls, strict=True, stats=None):
+    eps = Fr(eps)
+    why = bounded_precondition(case, eps, truth)
+    if why is not None:
+        if strict:
+            raise RuntimeError('bounded-noise generator left the precondition of the theorems: ' + why)
+        ck.cls('bounded:precondition-not-met')
+        return
+    got, sexes = run_code(case, scratch, tag)
+    jc = dict(jcase(case), kind='bounded_noise', eps=float(eps), truth=truth)
+    ck.count(['bounded', jc], nontrivial=True, cls=cls)
+    if isinstance(got, Err):
+        ck.violation('do_reference raised on a valid bounded-noise cohort', jc, code=got, expected='a table', clause='C05_bins')
+        return
+    sd = sexes_dict(case, sexes)
+    if any(bool(sd.get(i)) != v for i, v in truth['sex'].items()):
+        ck.cls('bounded:sex-not-as-generated')
+        return
+    rel = {(r[0], int(r[1]), int(r[2]), r[3]): Fr(float(r[4])) for r in truth['rel']}
+    build, hap = case['build'], case['hap']
+    allf, allm = all(truth['sex'].values()), not any(truth['sex'].values())
+    blocks = bounded_blocks(case)
+    ideal = {}            # key -> (kind, ideal value, flat level) or ('yf', -1, -1): exact
+    for files, first, skip_low in blocks:
+        if not any(is_auto(r[0]) for r in first):
+            continue
+        for r in first:
+            key = tuple(r[:4])
+            kind = bounded_kind(first, build, r)
+            if kind is None or key not in rel:
+                continue
+            a = rel[key]
+            fl = flat_level(first, hap, build, r)
+            if kind == 'auto':
+                ideal[key] = ('auto', a + fl, fl)
+            elif kind == 'x':
+                ideal[key] = ('x', a - (1 if hap else 0), fl)
+            elif allf:
+                ideal[key] = ('yf', Fr(-1), fl)
+            elif allm or a == 0:
+                ideal[key] = ('y', a - 1, fl)
+            # both sexes and a Y baseline off the centre: C05_sex_levels_y_mixed_refuted, no clause
+    # the first conjunct of the theorems, on the exact all_logr columns (independent oracle): every file's centred,
+    # shifted value is within 2 eps of the ideal value
+    cols = oracle_columns(case, sd)
+    for key, col, _ in (cols or []):
+        if key in ideal:
+            kind, v, fl = ideal[key]
+            if col[0] != fl or any(abs(x - v) > (0 if kind == 'yf' else 2 * eps) for x in col[1:]):
+                raise RuntimeError('bounded-noise theorem, first conjunct, fails on the exact column of %r: %r vs %r +- %r'
+                                   % (key, [float(x) for x in col], float(v), float(2 * eps)))
+    rows = [r for r in got if tuple(r[:4]) in ideal]
+    if not rows:
+        ck.cls('bounded:no-constrained-bin')
+        return
+    bounds = vlib.model_batch('c05_noise_bounds', [[eps, ideal[tuple(r[:4])][2], ideal[tuple(r[:4])][1]] for r in rows])
+    for r, b in zip(rows, bounds):
+        kind, v, fl = ideal[tuple(r[:4])]
+        if isinstance(b, Err) or b[0] != max(2 * eps, abs(fl - v)) or b[1] * 4 != b[2]:
+            raise RuntimeError('Coq Spec/Reference.v noise_radius / constants disagree with the harness: %r' % (b,))
+        R, K = b[0], b[1]
+        err, var = abs(Fr(r[4]) - v), Fr(r[6]) ** 2
+        tol = Fr(1, 10 ** 9)
+        if kind == 'yf':
+            if err > tol or abs(r[6]) > 1e-9:
+                ck.violation('Y bin of an all-female cohort is not exactly -1 with spread 0 under bounded noise', jc, code=r,
+                             expected={'log2': -1.0, 'spread': 0.0}, clause='C05_bounded_noise_sex_y_females')
+                return
+            continue
+        if stats is not None:
+            stats['bins'] = stats.get('bins', 0) + 1
+            stats['max_err_over_radius'] = max(stats.get('max_err_over_radius', 0.0), float(err / R))
+            stats['max_var_over_radius_sq'] = max(stats.get('max_var_over_radius_sq', 0.0), float(var / (R * R)))
+            if R == 2 * eps:
+                stats['bins_at_2eps'] = stats.get('bins_at_2eps', 0) + 1
+                stats['max_var_over_eps_sq'] = max(stats.get('max_var_over_eps_sq', 0.0), float(var / (eps * eps)))
+        if err > R + tol:
+            ck.violation('reference log2 of a bounded-noise cohort is farther from the ideal level than max(2 eps, |flat - ideal|)', jc,
+                         code=r, expected={'ideal': float(v), 'radius': float(R), 'eps': float(eps), 'bin_is': kind},
+                         clause='C05_bounded_noise_log2' if kind == 'auto' else 'C05_bounded_noise_sex_' + kind)
+            return
+        if var > K * R * R * (1 + tol):
+            ck.violation('spread^2 of a bounded-noise cohort exceeds %s radius^2' % K, jc,
+                         code=r, expected={'radius': float(R), 'spread_sq_at_most': float(K * R * R), 'eps': float(eps)},
+                         clause='C05_bounded_noise_spread')
+            return
+        if R == 2 * eps and 2 * eps <= b[3] and err > b[3] + tol:
+            raise RuntimeError('2 eps <= tolerance but the error exceeds the tolerance: inconsistent bounds')
+    ck.cls('bounded:bounds-checked')
+
+
+def check_bounded_noise(ck, scratch, n):
+    rng = ck.rng
+    stats = {}
+    for i in range(n):
+        eps = NOISE_EPS[i % 3]
+        mode = (i // 3) % 4
+        kw = dict(nbins=rng.randint(12, 60), noise=int(eps * 1024), with_low=False)
+        if mode == 0:          # profile centred at the flat level everywhere: radius 2 eps in every bin
+            kw.update(flat_profile=True, flat_sex_profile=True)
+        elif mode == 1:        # one declared sex: Y of all-male / all-female cohorts
+            kw.update(mixed=False, with_y=True)
+        elif mode == 2:
+            kw.update(flat_sex_profile=True, with_y=True, sex_share=0.2)
+        case, meta = gen_cohort(rng, **kw)
+        if mode == 1:
+            case['female_samples'] = all(meta['sex'].values())
+        check_bounded_case(ck, scratch, 'bounded%d' % i, case, eps, bounded_truth(meta),
+                           'bounded:eps=1/%d' % eps.denominator, stats=stats)
+    ck.extra['bounded_noise_observed'] = stats
+
+
+# ----------------------------------------------------------------------------
 
 def load_corpus():
     p = os.path.join(HERE, '..', 'corpus', 'c05.json')
@@ -1319,10 +1494,26 @@ def run(ck, scratch):
                'vs the Coq model; malformed stream: one file with a changed/dropped/duplicated bin, unequal file counts; '
                'flat references from BED files with/without FASTA; gc/rmask on random strings and FASTA bins; the gc/rmask columns of '
                'pooled references with a FASTA (sequences shorter than a bin included) and without one (gc column of the first file); single columns '
-               'for the two estimators; non-trivial = >= 2 samples and a table produced / a column with two distinct values')
+               'for the two estimators; bounded-noise cohorts (uniform noise in [-eps, eps] on the 1/1024 grid, eps in 1/64, 1/16, 1/8, '
+               'flat / random profiles, given / inferred sexes) -> the exact bounds of the C05_bounded_noise theorems as direct oracle '
+               '(|ref - ideal| <= max(2 eps, |flat - ideal|), spread^2 <= 62 radius^2, constants read from the Coq spec); '
+               'non-trivial = >= 2 samples and a table produced / a column with two distinct values')
     ck.unproved_remainder = [
-        'noise clauses ("spread ~ 0", X/Y levels under noise, corrections on): evaluated on the code only with tolerance 0.15 '
-        'at a sex-chromosome share <= 10% (class noisy:*), no theorem',
+        'noise clauses ("spread ~ 0", X/Y levels "~ -1 / 0 / -1"): PROVED for bounded noise with corrections off '
+        '(C05_bounded_noise_*: every file within eps of profile + constant => every centred value within 2 eps, reference '
+        'log2 within R = max(2 eps, |flat - ideal|) of the ideal level -- 2 eps where the centred profile sits on the '
+        'flat level, in particular X at -1 / 0 and Y at -1 -- and spread^2 <= 62 R^2 = 248 eps^2; tolerance 0.15 = '
+        '2 eps at eps = 0.075) and checked on the code by the bounded:* classes; what is still only SAMPLED: unbounded '
+        '(Gaussian-like) noise and the corrections-on pipeline (classes noisy:*, tolerance 0.15 at a sex-chromosome '
+        'share <= 10%), no theorem',
+        'bounded noise: the log2 radius uses only the range property of the biweight location, so in a bin whose '
+        'centred profile a is off the flat level the proved radius is max(2 eps, |a|), not 2 eps (that the location of '
+        '>= 2 agreeing samples ignores a distant flat value is not proved under noise; exact without noise: C05_depth_only); '
+        'the spread constant 62 per squared radius is not sharp (two regimes on the scale s: all u^2 <= 8/25, or the '
+        'numerator paired termwise with the denominator, whose lower bound counts the points within one MAD of the centre; '
+        'a lower bound 400/361 is proved by example; the largest ratio seen on the code is recorded in '
+        'coverage.bounded_noise_observed), so "spread <= 0.15" follows from the theorem only for eps <= 1/105; mixed-sex Y '
+        'bins with a baseline off the autosomal centre have no level clause (C05_sex_levels_y_mixed_refuted)',
         'sqrt: spread is compared squared (sqrt is a Section oracle in the proofs)',
         'sample sexes, when inferred, are the code\'s own guess_xx results (oracle; C15)',
         'corrections on (center_by_window): only bins, gc/rmask columns and the level clauses are checked (C04 owns the windows)',
@@ -1338,13 +1529,20 @@ def run(ck, scratch):
         '(published formulas in Fractions, centre carried with 220 fractional bits); the all_logr columns are compared '
         'exactly with the model for every cohort',
     ]
-    ck.explanation = ('Model/Reference.v is proved (Props/C05.v, 18 theorems, no axioms) to have exactly the input bins, to '
+    ck.explanation = ('Model/Reference.v is proved (Props/C05.v, no axioms) to have exactly the input bins, to '
                       'reject differing files, to give per bin the published biweight location / midvariance of flat :: '
                       'centred-and-shifted samples, to reproduce depth-only cohorts with spread 0, to put X/Y at the '
-                      'reference-sex levels for noise-free cohorts, the flat levels (outside the open PAR-Y finding, whose '
+                      'reference-sex levels for noise-free cohorts and within explicit bounds (2 eps / 248 eps^2) for cohorts with '
+                      'noise bounded by eps, the flat levels (outside the open PAR-Y finding, whose '
                       'refutation is proved) and gc/rmask as unambiguous-base fractions; the correspondence ties that model '
                       'to do_reference / do_reference_flat / calculate_gc_lo on generated cohorts, every code output is also '
                       'checked against an independent oracle of each clause')
+    if os.environ.get('C05_STREAMS') == 'bounded':
+        # development aid (mutation sanity of the bounded-noise oracle alone); never set by ./check
+        for j, c in enumerate(corpus.get('bounded', [])):
+            check_bounded_case(ck, scratch, 'bcorpus%d' % j, unj(c['case']), Fr(c['eps']), c['truth'], 'bounded:corpus')
+        check_bounded_noise(ck, scratch, 12 if quick else 180)
+        return
     # ---- corpus first
     pool_corpus = [(unj(c['case']), None) for c in corpus.get('pool', [])]
     check_pool_cases(ck, scratch, pool_corpus, 'corpus')
@@ -1412,6 +1610,10 @@ def run(ck, scratch):
     check_depth_only_corrected(ck, scratch, 2 if quick else 12)
     check_cli_sample_sex(ck, scratch, 2 if quick else 10)
     check_noisy(ck, scratch, 5 if quick else 60)
+    # ---- bounded noise: the deterministic theorems, checked on the code
+    for j, c in enumerate(corpus.get('bounded', [])):
+        check_bounded_case(ck, scratch, 'bcorpus%d' % j, unj(c['case']), Fr(c['eps']), c['truth'], 'bounded:corpus')
+    check_bounded_noise(ck, scratch, 12 if quick else 180)
 
 
 def check_malformed(ck, scratch, cases):
@@ -1442,6 +1644,10 @@ def replay(ck, body):
                   'antis': None if case['antis'] is None else [tuple(x) for x in case['antis']], 'seqs': None}
             hit = check_flat_case(ck, d, 'replay', fc, canonical=False)
             bad = len(ck.violations) > before or bool(hit)
+        elif case.get('kind') == 'bounded_noise':
+            check_bounded_case(ck, d, 'replay', unj({k: v for k, v in case.items() if k not in ('kind', 'eps', 'truth')}),
+                               Fr(case['eps']), case['truth'], 'bounded:replay', strict=False)
+            bad = len(ck.violations) > before
         elif 'column' in case:
             check_columns(ck, [[Fr(float(x)) for x in case['column']]], 'replay')
             bad = len(ck.violations) > before
